@@ -157,7 +157,11 @@ def binop(I, op, a, b, inplace=False):
                 if m is not None:
                     return I.call_method(b, f"__r{name}__", [a])
             raise Unsupported(f"tensor {type(op).__name__} object {obj!r}")
-        return tlib.binop(I, op, a, b, inplace)
+        from . import torchlib
+
+        r = tlib.binop(I, op, a, b, inplace)
+        torchlib.fw_mark(r, torchlib.fw_join([a, b]), [a] if inplace else [])
+        return r
     if isinstance(a, IN.SObj) or isinstance(b, IN.SObj):
         name = _DUNDER.get(type(op))
         if name is None:
@@ -1415,7 +1419,9 @@ def native_isinstance(I, o, cls):
     if nm in ("torch.Tensor", "Tensor"):
         return isinstance(o, Tensor)
     if nm == "np.ndarray":
-        return False
+        from .torchlib import NumpyArray
+
+        return isinstance(o, NumpyArray)
     if nm == "dict":
         return isinstance(o, dict)
     if nm == "Iterable":
